@@ -58,6 +58,16 @@ static void base_cfg (J &plan, const Fmt &f, int ch, int rate, const std::string
 	if ((route == "fd" || route == "fdnc" || route == "path") && g.rng.chance (0.5)) gen_benign_io (g, plan) ;
 }
 
+// Clipping switch (SFC_SET_CLIPPING) on conversions between float/double callers and integer encodings: for samples inside the
+// representable range it must not change anything, so it may be switched on wherever the data class stays inside [-1, 1) and
+// the value model or the sequential reference decides. Inserts the command right after the open at ops [at].
+static void maybe_clipping (GenCtx &g, J &plan, J &ops, size_t at, int T)
+{	std::string cls = plan.at ("cfg").at ("data").gets ("class") ;
+	if (!(T == T_FLOAT || T == T_DOUBLE) || !(cls == "noise" || cls == "sine" || cls == "ramp") || !g.rng.chance (0.2)) return ;
+	J c = mkop ("cmd") ; c ["id"] = "clipping" ; c ["arg"] = 1 ;
+	if (at + 1 <= ops.a.size ()) ops.a.insert (ops.a.begin () + (long) (at + 1), c) ;
+}
+
 // ------------------------------------------------------------------------------------------ C01
 
 static J gen_c01 (uint64_t seed, uint64_t idx)
@@ -75,7 +85,9 @@ static J gen_c01 (uint64_t seed, uint64_t idx)
 	plan ["cfg"]["model"] = stype_name (T) ;
 	J ops = J::arr () ;
 	int64_t N = gen_writer (g, ops, f, ch, rate, route, false, T, true, 0) ;
+	maybe_clipping (g, plan, ops, 0, T) ;
 	J o = mkop ("open") ; o ["mode"] = "r" ; ops.push (o) ;
+	maybe_clipping (g, plan, ops, ops.size () - 1, T) ;
 	int nr = (int) g.rng.range (1, 5) ;
 	int64_t left = N + 3 ;
 	for (int k = 0 ; k < nr && left > 0 ; k++)
